@@ -10,6 +10,7 @@
 #include <string_theory/iostream>
 #include <string_theory/string_stream>
 #include <sstream>
+#include <filesystem>
 #include <functional>
 #include <climits>
 #include <cfloat>
@@ -25,18 +26,18 @@ static void assert_hook(const char *file, int line, const char *msg) { throw ass
 // ------------------------------------------------------------- arguments ---
 struct AnyArg {
     enum T { I8, U8, I16, U16, I32, U32, I64, U64, CHAR, WCHAR, C16, C32, C8, BOOL, NULLSTR,
-             S_CSTR, S_ST, S_STD, S_VIEW, S_C8Z, S_U8STD, S_U16Z, S_U32Z, S_WZ, S_U16STD, S_WSTD, S_NESTED } t = I32;
+             S_CSTR, S_ST, S_STD, S_VIEW, S_C8Z, S_U8STD, S_U16Z, S_U32Z, S_WZ, S_U16STD, S_WSTD, S_NESTED, S_PATH } t = I32;
     long long sv = 0; unsigned long long uv = 0; Bytes b;
     std::u16string b16; std::u32string b32; std::wstring bw;
 };
 static const char *type_name(const AnyArg &a) {
     static const char *n[] = {"i8", "u8", "i16", "u16", "i32", "u32", "i64", "u64", "char", "wchar", "c16", "c32", "c8", "bool", "nullstr",
-                              "str", "str", "str", "str", "str", "str", "str", "str", "str", "str", "str", "str"};
+                              "str", "str", "str", "str", "str", "str", "str", "str", "str", "str", "str", "str", "str"};
     return n[a.t];
 }
 static const char *form_name(const AnyArg &a) {
     static const char *n[] = {"", "", "", "", "", "", "", "", "", "", "", "", "", "", "",
-                              "cstr", "ST::string", "std::string", "string_view", "c8z", "u8string", "u16z", "u32z", "wz", "u16string", "wstring", "nested"};
+                              "cstr", "ST::string", "std::string", "string_view", "c8z", "u8string", "u16z", "u32z", "wz", "u16string", "wstring", "nested", "fspath"};
     return n[a.t];
 }
 // found by argument-dependent lookup from ST::make_formatter_ref: dispatches to the library's own formatter of the static type
@@ -68,6 +69,7 @@ void format_type(const ST::format_spec &f, ST::format_writer &o, const AnyArg &a
     case AnyArg::S_WZ: ST::format_type(f, o, a.bw.c_str()); break;
     case AnyArg::S_U16STD: ST::format_type(f, o, a.b16); break;
     case AnyArg::S_WSTD: ST::format_type(f, o, a.bw); break;
+    case AnyArg::S_PATH: ST::format_type(f, o, std::filesystem::path(a.b)); break;
     // a user-defined formatter that itself formats (re-entrant use of the library while an outer call is running)
     case AnyArg::S_NESTED: { string inner = ST::format(ST::assume_valid, "{}{}", std::string_view(a.b).substr(0, a.b.size() / 2), std::string_view(a.b).substr(a.b.size() / 2));
                              string twice = ST::format_latin_1("{}", 7); (void)twice;
@@ -552,7 +554,7 @@ static void gen_int_layouts() {
             if (w % 5 == 0) op_fmt(sp, {mk_int(AnyArg::I64, v, (unsigned long long)v)});
         }
     // strings and booleans: precision and width relative to the length
-    static const AnyArg::T f[] = {AnyArg::S_CSTR, AnyArg::S_ST, AnyArg::S_STD, AnyArg::S_VIEW, AnyArg::S_C8Z, AnyArg::S_U8STD, AnyArg::S_U16Z, AnyArg::S_U32Z, AnyArg::S_WZ, AnyArg::S_U16STD, AnyArg::S_WSTD};
+    static const AnyArg::T f[] = {AnyArg::S_CSTR, AnyArg::S_ST, AnyArg::S_STD, AnyArg::S_VIEW, AnyArg::S_C8Z, AnyArg::S_U8STD, AnyArg::S_U16Z, AnyArg::S_U32Z, AnyArg::S_WZ, AnyArg::S_U16STD, AnyArg::S_WSTD, AnyArg::S_PATH, AnyArg::S_NESTED};
     for (AnyArg::T form : f) for (int len = 0; len <= 5; ++len) for (int w : {0, 3, 4, 5, 6}) for (int p : {-1, 0, 1, 4, 5, 6}) for (const char *al : {"", "<", ">"}) for (const char *pd : {"", "_*", "0"}) {
         std::vector<uint32_t> sc; for (int i = 0; i < len; ++i) sc.push_back('a' + i);
         Bytes s = "["; s += "{"; s += al; s += pd; if (w) s += std::to_string(w); if (p >= 0) { s += '.'; s += std::to_string(p); } s += "}]";
